@@ -20,6 +20,7 @@ func checkC10(c *Ctx) {
 	c.rule("TOTAL-importer", "importer is panic-free, allocation-bounded and loop-free on arbitrary node streams", 30)
 	c.rule("OWN-root-marker", "root marker written only by Commit; publication after the synchronous write", 4)
 	c.rule("ERR-export", "an export that hits a storage error cannot end with 'done'", 2)
+	c.rule("NONNIL-decoded-key", "a successfully delta-decoded key is never nil (nil keys are rejected by the importer; the empty key is a legal key)", 2)
 	c.rule("FLOW-export-fields", "exporter and importer map node fields to stream fields and back identically; children are taken from the stack in left/right order; the compressed stream's version/key coding is undone by its mirror image", 20)
 	checkExportImportFields(c)
 
@@ -220,6 +221,11 @@ func checkC10(c *Ctx) {
 		}
 	}
 
+	// ---- (2b) the background node batch and the root batch
+	checkInflightProtocol(c, "OWN-root-marker")
+	// ---- (2c) keys handed on by the decompressing wrapper
+	checkDecodedKeyNonNil(c)
+
 	// ---- (3)
 	ea := newErrAnalysis(c, l)
 	exp := l.Func("", "*Exporter.export")
@@ -391,5 +397,204 @@ func checkExportImportFields(c *Ctx) {
 		c.decide(R, "compress: lastKey <- the leaf's plain key", l.pos(next.Pos()), len(lk) == 1 && lk[0] == n0+".Key", "previous plain key", "exporter remembers `"+strings.Join(lk, " | ")+"`")
 		lk = fieldStores(cadd, ciT, "lastKey")
 		c.decide(R, "decompress: lastKey <- the decoded key", l.pos(cadd.Pos()), len(lk) == 1 && lk[0] == "deltaDecode(arg0.Key,recv.lastKey)#0", "previous decoded key", "importer remembers `"+strings.Join(lk, " | ")+"`")
+	}
+}
+
+// checkInflightProtocol (shared by C10 and C05): the importer writes node
+// batches in the background and the root batch synchronously at the end.
+//   (a) the root batch is written only after the background batch has been
+//       awaited (or there is none) AND its result was found nil — otherwise
+//       the imported version becomes visible over missing nodes;
+//   (b) whoever receives the background result clears the in-flight slot on
+//       every path before returning: the result channel delivers exactly
+//       once, a second receive blocks forever (Close is deferred by callers).
+func checkInflightProtocol(c *Ctx, rule string) {
+	l := c.L
+	impCommit := l.Func("", "*Importer.Commit")
+	fIn := l.Field("", "Importer", "inflightCommit")
+	if impCommit == nil || fIn == nil {
+		c.anchorMissing(rule, "Importer.Commit / Importer.inflightCommit")
+		return
+	}
+	isRecv := func(in ssa.Instruction) bool {
+		u, ok := in.(*ssa.UnOp)
+		return ok && u.Op == token.ARROW && isLoadOfField(fIn)(u.X)
+	}
+	// (a)
+	var ws *ssa.Call
+	for _, in := range callsIn(impCommit, isBatchWrite) {
+		if cl, ok := in.(*ssa.Call); ok {
+			ws = cl
+		}
+	}
+	if ws == nil {
+		c.bad(rule, "Importer.Commit root batch after the background batch", l.pos(impCommit.Pos()), "no physical write in Importer.Commit")
+	} else {
+		// the nil edge of `inflightCommit != nil` counts as drained
+		noneEdge := func(from *ssa.BasicBlock, si int) bool {
+			iff := ifOf(from)
+			if iff == nil {
+				return false
+			}
+			v, nn, ok := nilCond(iff.Cond)
+			return ok && isLoadOfField(fIn)(stripTrivial(v)) && si == 1-nn
+		}
+		drained := mustStateE(impCommit, false, isRecv, nil, noneEdge)
+		okA := drained(ws)
+		why := "the root batch can be written while a background node batch is still in flight: its failure is learnt only after the root is durable"
+		if okA {
+			// result found nil: a guard on the received value (or a phi carrying it) whose nil edge dominates the write
+			carriers := map[ssa.Value]bool{}
+			allInstrs(impCommit, func(in ssa.Instruction) {
+				if isRecv(in) {
+					carriers[in.(ssa.Value)] = true
+				}
+			})
+			for changed := true; changed; {
+				changed = false
+				allInstrs(impCommit, func(in ssa.Instruction) {
+					if phi, ok := in.(*ssa.Phi); ok && !carriers[phi] {
+						for _, e := range phi.Edges {
+							if carriers[stripTrivial(e)] {
+								carriers[phi] = true
+								changed = true
+							}
+						}
+					}
+				})
+			}
+			okA = false
+			for _, b := range impCommit.Blocks {
+				iff := ifOf(b)
+				if iff == nil {
+					continue
+				}
+				v, nn, ok := nilCond(iff.Cond)
+				if ok && carriers[stripTrivial(v)] && edgeDominates(b, 1-nn, ws.Block()) {
+					okA = true
+				}
+			}
+			why = "the root batch is written without the background batch's result having been found nil"
+		}
+		c.decide(rule, "Importer.Commit root batch after the background batch", l.ipos(ws), okA, "awaited (or none in flight) and found nil before the synchronous write", why)
+	}
+	// (b)
+	n := 0
+	for _, fn := range l.SrcFuncs {
+		if l.pkgPathOf(fn) != l.ModPath {
+			continue
+		}
+		allInstrs(fn, func(in ssa.Instruction) {
+			if !isRecv(in) {
+				return
+			}
+			n++
+			escapes := reachableAfter(in, func(x ssa.Instruction) bool {
+				r, ok := x.(*ssa.Return)
+				return ok && !isRecoverReturn(r)
+			}, func(x ssa.Instruction) bool { return isStoreToField(x, fIn) })
+			msg := ""
+			if len(escapes) > 0 {
+				msg = "the return at " + l.ipos(escapes[0]) + " is reached after the receive without clearing the in-flight slot: the next receive (Close, Commit, next flush) blocks forever"
+			}
+			c.decide(rule, l.fname(fn)+" clears the in-flight slot after receiving", l.ipos(in), len(escapes) == 0, "slot reset on every path", msg)
+		})
+	}
+	if n < 3 {
+		c.anchorMissing(rule, "fewer than 3 receives from Importer.inflightCommit")
+	}
+}
+
+// checkDecodedKeyNonNil: deltaDecode's success result is never nil.  May-nil
+// evaluation: nil constant, parameters and unknown values may be nil; make is
+// non-nil; x[lo:] is non-nil when lo >= 1 is established (slicing a nil slice
+// from 1 panics, which TOTAL-importer excludes) or x is non-nil; append(a, …)
+// may be nil iff a may be nil.
+func checkDecodedKeyNonNil(c *Ctx) {
+	l := c.L
+	const R = "NONNIL-decoded-key"
+	dd := l.Func("", "deltaDecode")
+	cadd := l.Func("", "*CompressImporter.Add")
+	if dd == nil || cadd == nil {
+		c.anchorMissing(R, "deltaDecode / CompressImporter.Add")
+		return
+	}
+	var mayNil func(v ssa.Value, at *ssa.BasicBlock, d int) bool
+	atLeastOne := func(v ssa.Value, at *ssa.BasicBlock) bool {
+		if k, ok := constInt(v); ok {
+			return k >= 1
+		}
+		// a dominating test `v <= 0` / `v < 1` whose false edge leads here
+		for _, b := range dd.Blocks {
+			iff := ifOf(b)
+			if iff == nil {
+				continue
+			}
+			bo, ok := iff.Cond.(*ssa.BinOp)
+			if !ok || stripTrivial(bo.X) != stripTrivial(v) {
+				continue
+			}
+			k, isK := constInt(bo.Y)
+			if !isK {
+				continue
+			}
+			switch {
+			case bo.Op == token.LEQ && k == 0, bo.Op == token.LSS && k == 1:
+				if edgeDominates(b, 1, at) {
+					return true
+				}
+			case bo.Op == token.GTR && k == 0, bo.Op == token.GEQ && k == 1:
+				if edgeDominates(b, 0, at) {
+					return true
+				}
+			}
+		}
+		return false
+	}
+	mayNil = func(v ssa.Value, at *ssa.BasicBlock, d int) bool {
+		if d > 8 {
+			return true
+		}
+		switch x := v.(type) {
+		case *ssa.Const:
+			return x.IsNil()
+		case *ssa.MakeSlice:
+			return false
+		case *ssa.Slice:
+			if _, isPtr := x.X.Type().Underlying().(*types.Pointer); isPtr {
+				return false // slice of an array
+			}
+			if x.Low != nil && atLeastOne(x.Low, x.Block()) {
+				return false
+			}
+			return mayNil(x.X, x.Block(), d+1)
+		case *ssa.Call:
+			if b, ok := x.Call.Value.(*ssa.Builtin); ok && b.Name() == "append" {
+				return mayNil(x.Call.Args[0], x.Block(), d+1)
+			}
+			return true
+		case *ssa.Phi:
+			for _, e := range x.Edges {
+				if mayNil(e, at, d+1) {
+					return true
+				}
+			}
+			return false
+		case *ssa.ChangeType:
+			return mayNil(x.X, at, d+1)
+		}
+		return true
+	}
+	n := 0
+	for _, r := range successReturns(dd) {
+		if isRecoverReturn(r) {
+			continue
+		}
+		n++
+		v := retVal(r, 0)
+		c.decide(R, "deltaDecode success result is non-nil", l.ipos(r), !mayNil(v, r.Block(), 0), "sliced from offset >= 1, or freshly made", "the decoded key `"+roleOf(l, v, "", 0)+"` can be nil (e.g. the empty key of the first leaf): the importer rejects nil keys, so a tree holding the empty key cannot be imported through the compressed stream")
+	}
+	if n == 0 {
+		c.anchorMissing(R, "deltaDecode has no success return")
 	}
 }
